@@ -986,6 +986,14 @@ Error query_rw_info(Arch arch, const BaseInst& inst, const Operand_* operands, s
           else if (Support::test(rw_op_data.flags, OpRWFlags::kZExt)) {
             // Otherwise follow ZExt.
             rw_zero_extend_non_vec(op, src_op.as<Gp>());
+            // Only VEX|EVEX|XOP encodings clear the bits above the destination register, a legacy SSE instruction keeps them.
+            if (src_op.as<Reg>().is_vec() && !common_info.is_vex_or_evex()) {
+              uint64_t msk = op.extend_byte_mask() & Support::lsb_mask<uint64_t>(Support::min<uint32_t>(src_op.x86_rm_size(), 64u));
+              op.set_extend_byte_mask(msk);
+              if (!msk) {
+                op.clear_op_flags(OpRWFlags::kZExt);
+              }
+            }
           }
         }
 
